@@ -300,6 +300,43 @@ pub fn run(ctx: &mut Ctx) {
             }
         }
     }
+    // extreme sizes: rendered on a thread with a large stack (totality and whitespace; the rendering of
+    // a term nested 300 deep is not kept in the injectivity monitor)
+    {
+        let mut idx = 0usize;
+        for (ci, (label, t)) in extreme_cases().into_iter().enumerate() {
+            idx += 1;
+            if !ctx.mine(idx) {
+                continue;
+            }
+            let nd = wrap_rotating(t, ci);
+            ctx.report.eval();
+            ctx.report.bump("family.extreme-sizes");
+            ctx.report.nontrivial(&format!("extreme|{}|{}", label, ci % 3));
+            let r = on_big_stack(move || {
+                let item = Item::N(nd);
+                let first = item.render();
+                // ... and an ordinary value afterwards on the same thread
+                let after = Item::N(ND::Term(TD::bin(Kind::Inh, TD::word("a"), TD::comp(Kind::SetExt, vec![TD::word("b")])))).render();
+                (first, after)
+            });
+            let why = match r {
+                None => Some("the thread rendering the case died".to_string()),
+                Some((Err(p), _)) => Some(format!("rendering panicked: {}", p)),
+                Some((Ok(text), after)) => whitespace_defect(&text).or(match after {
+                    Err(p) => Some(format!("an ordinary render after it on the same thread panicked: {}", p)),
+                    Ok(t) => whitespace_defect(&t),
+                }),
+            };
+            if let Some(w) = why {
+                ctx.report.violate(
+                    format!("C16|extreme|{}", label),
+                    format!("extreme case {} ({}): {}", label, ["term", "sentence", "task"][ci % 3], w.chars().take(300).collect::<String>()),
+                    J::obj().set("extreme", label.as_str()).set("wrap", ci as u64),
+                );
+            }
+        }
+    }
     // depth 2: constructors over depth-1 compounds (sampled per shard)
     let mut rng = ctx.rng(0xC16);
     let names = common_safe_names();
@@ -396,6 +433,20 @@ pub fn run(ctx: &mut Ctx) {
 }
 
 pub fn replay(ctx: &mut Ctx, d: &J) -> Option<()> {
+    if let Some(label) = jstr(d, "extreme") {
+        let nd = wrap_rotating(extreme_from_label(&label)?, d.get("wrap")?.as_i128()? as usize);
+        let r = on_big_stack(move || Item::N(nd).render());
+        match r {
+            Some(Ok(t)) => {
+                if let Some(w) = whitespace_defect(&t) {
+                    ctx.report.violate(format!("C16|extreme|{}", label), w, d.clone());
+                }
+            }
+            Some(Err(p)) => ctx.report.violate(format!("C16|extreme|{}", label), format!("rendering panicked: {}", p), d.clone()),
+            None => ctx.report.violate(format!("C16|extreme|{}", label), "the thread died".into(), d.clone()),
+        }
+        return Some(());
+    }
     let mut mon = Monitor::new();
     if d.get("a").is_some() {
         let a = Item::from_json(d.get("a")?)?;
